@@ -43,14 +43,17 @@ def rect_guard(ctx):
         natoms = N
 
     class Sup(PyStub):
-        def __init__(self, rec):
+        def __init__(self, rec, view=None):
             self.rec = rec
+            self.view = view
 
         def __setitem__(self, k, v):
             self.rec.append(('insert', k, v))
+            if self.view is not None:
+                self.view.store[k] = v          # the dict the property view is built on: what was inserted can be read back through the view
 
         def __setattr__(self, k, v):
-            if k == 'rec':
+            if k in ('rec', 'view'):
                 object.__setattr__(self, k, v)
 
     class View(PyStub):
@@ -74,7 +77,7 @@ def rect_guard(ctx):
         ev = SymEval(ev_aliases)
         class _A(PyStub):
             PropertyDict = 'PropertyDict'
-        ev.globals = {'super': lambda *a: Sup(rec), 'dir': lambda o: [], 'Atoms': _A()}
+        ev.globals = {'super': lambda *a: Sup(rec, view), 'dir': lambda o: [], 'Atoms': _A()}
         paths = ev.run_fn(fn, [view, key, value], {})
         live = [q for q in paths if q.done == 'return']
         raised = [q for q in paths if q.done == 'raise']
@@ -120,7 +123,9 @@ def rect_guard(ctx):
             view, rec, live, raised = run('atype', arr([1, 2, 0, 1, 1]), existing)
         except Opaque as e:
             raise AnalysisError('PropertyDict.__setitem__ (atype, %s): %s' % (mode, e))
-        ctx.ob('RECT-GUARD', loc, 'atom types below 1 are refused (%s)' % mode, bool(raised) and not live and not rec, node=fn, key='atype ' + mode)
+        kept = mode == 'new key' or equal(np.asarray(view.store.get('atype'), dtype=object), arr([1] * N), deep=False)
+        ctx.ob('RECT-GUARD', loc, 'atom types below 1 are refused before anything is stored (%s): the table is as it was' % mode, bool(raised) and not live and not rec and bool(kept),
+               'stored after the refusal: %s' % (view.store.get('atype'),), node=fn, key='atype ' + mode)
         view, rec, live, raised = run('atype', arr([1, 2, 3, 1, 1]), existing)
         ctx.ob('RECT-GUARD', loc, 'atom types >= 1 are accepted (%s)' % mode, len(live) == 1 and not raised, node=fn, key='atype ok ' + mode)
     # who may write the dict
